@@ -6,7 +6,7 @@ CONSTANTS
   MaxCalls = 2
   NH = 4
   MaxConns = 1
-  MaxTicks = -1
+  MaxTicks = 99
   MaxCI = 1
   MaxReap = 0
   Retries = 1
